@@ -26,7 +26,7 @@ def run_one(m, scale, jobs):
     try:
         src = os.path.join(d, "src")
         os.makedirs(src)
-        shutil.copytree("/repo/kawin", os.path.join(src, "kawin"), ignore=shutil.ignore_patterns("__pycache__"))
+        shutil.copytree(os.path.join(os.environ.get("KAWIN_MUT_BASE", "/repo"), "kawin"), os.path.join(src, "kawin"), ignore=shutil.ignore_patterns("__pycache__"))
         os.symlink("/repo/examples", os.path.join(src, "examples"))
         path = os.path.join(src, m["file"])
         s = open(path).read()
